@@ -206,6 +206,7 @@ func compile(fn *ssa.Function) *fnInfo {
 // ---- interpreter state ------------------------------------------------
 
 type Interp struct {
+	parseText    map[*value]value     // source text behind modelled ANTLR input streams, lexers and parsers (per path)
 	jsonRaws     map[uintptr]rawEntry // source text of decoded JSON objects/arrays (per path)
 	sh           *Shared
 	prog         *ssa.Program
